@@ -10,7 +10,7 @@ CHECKS = {
         level="model_checking", design="DESIGN.md 4/C09",
         technique="TLA+ refinement PipeRing=>Pipe checked by TLC; TLC transition-cover behaviours replayed lock-step into the real pipe via gate hooks; recorded hook traces validated by TLC against the contract (PipeTrace); thorough: the ring arithmetic for unbounded totals as an inductive invariant discharged by Apalache (RingInd.tla)",
         text="TLC proves on the as-implemented ring model (all interleavings, small constants) that the contract (FIFO, parks only when blocked, wake obligations, exact close/return rules) holds; the binding to the code is two-way: every transition of the model's state graph is driven through the real pipe in lock-step and every event recorded from lock-step and free-running executions is checked by TLC against the contract, invariants evaluated after each event.",
-        note="Go runtime sync.Cond semantics; 5 s watchdog used only together with a contract state that owes a wake-up; lock-step uses alignment-unit sizes, byte-granular sizes only in free runs."),
+        note="Go runtime sync.Cond semantics; 5 s watchdog used only together with a contract state that owes a wake-up; lock-step uses alignment-unit sizes (capacities of 2 and of 3 units), byte-granular sizes only in free runs."),
     "C18": dict(
         level="model_checking", design="DESIGN.md 4/C18",
         technique="TLA+ model of the ring log (Backlog.tla) with the contract as invariants checked by TLC; TLC-simulated behaviours replayed lock-step into the real backlog via gate hooks; recorded hook traces validated by TLC (BacklogTrace); thorough: the ring for unbounded offsets as an inductive invariant discharged by Apalache (LogRingInd.tla)",
@@ -70,7 +70,7 @@ CHECKS = {
         level="model_checking", design="DESIGN.md 4/C02",
         technique="TLA+ case space and outcome contract (Restore.tla, 118 584 cases enumerated by TLC); seeded samples of the cases concretised by an independent RDB writer, parsed by the real Loader and restored by the real RestoreRdbEntry into a model Redis with per-case personality; every command and the final key judged by TLC (FsTrace.tla)",
         text="The property is a decision table over entry x configuration x target state; TLC enumerates the full case space with the contract's outcome per case and a seeded sample (quick ~1 800, thorough ~12 000 distinct cases, plus chunked hashes) is executed on the real code: value equality by the harness's own decoder, TTL window, untouched-ness of existing keys under none/ignore, error reporting, no abort for any version string, no DEL outside rewrite.",
-        note="mredis stands in for Redis (BUSYKEY texts, REPLACE / IDLETIME / FREQ support, Bad data format); an RDB carries LRU or LFU hints, never both; TTL tolerance 3 s."),
+        note="Routes: RestoreRdbEntry per entry, and rump's RestoreBigkey for key sequences on one connection; mredis stands in for Redis (BUSYKEY texts, REPLACE / IDLETIME / FREQ support, Bad data format); an RDB carries LRU or LFU hints, never both; TTL tolerance 3 s."),
     "C05": dict(
         level="model_checking", design="DESIGN.md 4/C05",
         technique="TLA+ model of the byte pipeline wire -> bufio -> {header parser | bounded copy | stream copy} -> pipe (Handoff.tla) model-checked by TLC for every fragmentation of small streams; a scripted TCP source drives the real sendPSyncCmd / runIncrementalSync / dump worker with framing and fragmentation variants (boundary splits, TLC-simulated segmentations) and TLC judges the recorded observations (HandoffTrace.tla)",
@@ -80,7 +80,7 @@ CHECKS = {
         level="model_checking", design="DESIGN.md 4/C08",
         technique="TLA+ model of send / receive / ACK tick / drop / reconnect (Offsets.tla) model-checked by TLC (the pre-fix arithmetic kept as a deviation switch that TLC refutes); complete real-time Sync() runs between a scripted source and a model Redis, with source events, the tool's recv/ack hook events and the target's checkpoints in one sequence validated by TLC (OffsetsTrace.tla); the counter abstraction OffsetsInd.tla has an inductive invariant discharged by Apalache (unbounded offsets)",
         text="TLC checks ack exactness / monotonicity / never-ahead / exact reconnect / no gap no duplicate for all interleavings at small bounds; the binding is end-to-end: the real DbSyncer.Sync() (checkpoint load, PSYNC, full sync, incremental sync with resume, ACK goroutine, reconnect loop) runs against fakesrc with bursts, idle periods spanning several ACK ticks, drops at and inside command boundaries, start offsets up to 2^40 and starts from a stored checkpoint; TLC judges every ACK, every re-PSYNC offset, the quiescent ACK, the checkpoint offsets and exactly-once application.",
-        note="Real wall-clock tick periods (5-9 s per run; 8 runs quick, 48 thorough, parallel processes); refused re-PSYNC (30 s back-off) only in the thorough tier; offsets are compared relative to the start offset because TLC integers are 32 bit."),
+        note="Real wall-clock tick periods (5-9 s per run; 8 runs quick, 48 thorough, parallel processes); one refused re-PSYNC (30 s back-off) in the quick tier, three in the thorough tier; one run with target.db and one resumed in a non-zero database; offsets are compared relative to the start offset because TLC integers are 32 bit."),
     "C19": dict(
         level="exploration", design="DESIGN.md 4/C19",
         technique="TLA+ information-flow policy (Flows.tla) evaluated by TLC over the emissions recorded from real runs of the other families' scenarios with distinct sentinel credentials and the logger at debug level",
@@ -90,7 +90,7 @@ CHECKS = {
         level="model_checking", design="DESIGN.md 4/C01",
         technique="TLA+ model of the loader's opcode loop against the record contract (RdbFile.tla / RdbContract.tla) model-checked by TLC for all operation sequences up to length 4-5; operation sequences concretised by an independent RDB writer and parsed by the real Loader, record attributes validated by TLC (RdbTrace.tla), key / type / DUMP payload bytes compared with what the writer put into the file",
         text="TLC checks the opcode loop for every operation sequence (attributes bound to the next key, database tracking, script records, skipped metadata, chunk records); the real Loader is bound by trace validation over generated files covering format versions 3-9, every value type and compact encoding, all length and string forms for values and key names, sizes across the 6/14/32-bit boundaries, streams with consumer groups, module-aux blocks (64-bit ids, float/double), and hashes above the 16 MiB chunk limit, with byte-exact comparison of every payload and the footer check.",
-        note="Payload byte fidelity rests on the harness's independent writer (rdbref) which remembers each value's bytes; module values (types 6/7) not generated; pre-version-5 files have no checksum."),
+        note="Payload byte fidelity rests on the harness's independent writer (rdbref) which remembers each value's bytes; every delivered record is kept and re-verified at the end of its file; module values (types 6/7) not generated; pre-version-5 files have no checksum."),
     "C12": dict(
         level="model_checking", design="DESIGN.md 4/C12",
         technique="byte-level TLA+ definition of what a Redis server materialises from a serialised value (RdbValue.tla: all length and string forms, LZF, ziplist, intset, zipmap, quicklist, text and binary scores) and of the tool's encoder; TLC checks Materialise(Encode(v)) = v over boundary values and the file-encoder protocol composed with the C01 loader contract (EncFile.tla); the TLC-enumerated values and generated values in every compact encoding are run through the real EncodeDump / DecodeDump / Encoder / Loader / ObjEntry and every observation is judged by TLC (RdbValueTrace.tla), large payloads and finite-score numerics by a lifted Go reference",
